@@ -31,16 +31,19 @@
    (7) C06_resumed_only_in_awaiting_tasks: while the body of t runs, a context of a task u whose newest event is a
        resume belongs to u = t or to a task that awaits t (t is reachable from u through the dependency lists of
        uncompleted tasks, MachineC04.reach): a context is paused whenever a task its owner is not awaiting runs.
-   REFUTED (C06_alternation_all_contexts_is_false): statement (3) for ALL programs with well-nested with-blocks, i.e.
-   also for contexts whose pause()/resume() raise, is FALSE in the faithful model: with a NonAsyncContext nested inside
-   an AsyncContext in a task that blocks, _pause_contexts pauses the AsyncContext, the NonAsyncContext's assertion
-   error is delivered through _accept_error, generator.close() runs the with-blocks' __exit__, and the AsyncContext
-   is paused a second time: resume, pause, pause (witness c06_cx, by vm_compute; MachineC06T.c06_cx_one_events: a
-   single AsyncContext whose scheduler-driven pause() raises gives the same resume, pause, pause).  (3) is proved for
-   the contexts that cannot fail.
+   FIRST REFUTED, THEN REPAIRED: statement (3) for ALL programs with well-nested with-blocks, i.e. also for
+   NonAsyncContext and contexts whose pause()/resume() raise (MachineC06T.alternation_all_contexts_statement), was
+   refuted in the first version of the model: with a NonAsyncContext nested inside an AsyncContext in a task that
+   blocks, _pause_contexts paused the AsyncContext, the NonAsyncContext's assertion error was delivered through
+   _accept_error, generator.close() ran the with-blocks' __exit__, and the AsyncContext was paused a second time:
+   resume, pause, pause (a single AsyncContext whose scheduler-driven pause() raises gave the same).  The witness
+   reproduced on the implementation (known finding C06:alternation / double-pause) and was repaired in /repo
+   ("fix: AsyncContext.__exit__ does not pause a context twice"); Machine.exit_ctx follows the repaired code and
+   C06_former_witnesses_alternate shows by vm_compute that the former witnesses now alternate.  The general statement
+   beyond tree programs is now neither proved nor refuted.
    NOT PROVED: programs outside tree/wn - Let/Sync (synchronous re-entry through .value(), "including synchronous
    calls it makes"), ReadVar/Probe branching, shared futures (DAGs), with-blocks left open when a task ends, contexts
-   whose resume() raises (one run computed in c06_cx_one_events alternates; nothing proved), non-pointwise services, runs in which
+   whose resume()/pause() raise, NonAsyncContext (three runs computed in C06_former_witnesses_alternate; nothing proved), non-pointwise services, runs in which
    the task-stack guard fired; the converse of (7) (every awaiting task's contexts ARE resumed while t runs) is only
    proved for t itself (6) - for ancestors it follows from MachineC07's layer structure but is not stated here.
    These are covered by the correspondence harness + monitors. *)
@@ -123,10 +126,20 @@ Theorem C06_resumed_only_in_awaiting_tasks : forall P, pointwise P -> forall p, 
 Proof. exact resumed_only_in_awaiting_tasks_tree. Qed.
 Print Assumptions C06_resumed_only_in_awaiting_tasks.
 
-(* the alternation clause does not extend to contexts whose pause() raises: resume, pause, pause *)
-Theorem C06_alternation_all_contexts_is_false : ~ alternation_all_contexts_statement.
-Proof. exact alternation_all_contexts_is_false. Qed.
-Print Assumptions C06_alternation_all_contexts_is_false.
+(* the programs that refuted the unrestricted alternation statement before the repair now alternate *)
+Example C06_former_witnesses_alternate :
+  let P := mkP [] 1000 false [] in
+  let ev p := let h := fst (create [] (FTask p) (st0 P)) in
+              let s1 := snd (create [] (FTask p) (st0 P)) in
+              (no_unwind_b P 100 (start h s1), c_mode (run P 100 (start h s1)),
+               ctx_events [0] 1 (trace (c_st (run P 100 (start h s1))))) in
+  wn [] c06_cx /\
+  ev c06_cx = (true, MDone (Err E_NONASYNC), [EvResume [0] 1; EvPause [0] 1]) /\
+  ev (c06_cx_one (CAsync 1 (PauseRaises 1 77))) = (true, MDone (Err 77), [EvResume [0] 1; EvPause [0] 1]) /\
+  ev (c06_cx_one (CAsync 1 (ResumeRaises 1 77))) =
+    (true, MDone (Err 77), [EvResume [0] 1; EvPause [0] 1; EvResume [0] 1; EvPause [0] 1]).
+Proof. exact c06_former_witnesses_alternate. Qed.
+Print Assumptions C06_former_witnesses_alternate.
 
 (* non-vacuity: the parent's AsyncContext 1 is resumed and paused four times (entry, two suspensions around batch
    flushes, exit and re-entry with the same id, exit), the child's context 1 twice; the run ends with a value *)
